@@ -132,6 +132,18 @@ func (k Keeper) ToggleClient(
 		)
 	}
 
+	// the consensus states and metadata of the previous client type mean nothing to the new one
+	store := k.ClientStore(ctx, chainName)
+	iterator := store.Iterator(nil, nil)
+	var staleKeys [][]byte
+	for ; iterator.Valid(); iterator.Next() {
+		staleKeys = append(staleKeys, iterator.Key())
+	}
+	iterator.Close()
+	for _, key := range staleKeys {
+		store.Delete(key)
+	}
+
 	k.SetClientState(ctx, chainName, newClientState)
 	// the client store is initialised the way the new client type requires
 	if err := newClientState.Initialize(ctx, k.cdc, k.ClientStore(ctx, chainName), newConsensusState); err != nil {
